@@ -51,3 +51,11 @@ Print Assumptions C19_reduce_special.
 (* non-vacuity: a concrete value meeting the hypotheses *)
 Example C19_example : dreduce go_est (mkDec Finite true (-2) 120000) = Ok (mkDec Finite true 2 12, 4).
 Proof. vm_compute. reflexivity. Qed.
+
+(* beyond the sizes at which the model is evaluated, NumDigits is checked on 10^k - 1, 10^k, 10^k + 1 (k up
+   to 30000) against this closed form of the digit count *)
+From Apd Require Import Spec.SpecZ Proofs.ReduceProofs.
+Theorem C19_digits_of_powers_of_ten : forall k delta, 1 <= k -> -1 <= delta <= 1 ->
+  ndigits (10 ^ k + delta) = expected_digits_pow10 k delta.
+Proof. exact expected_digits_pow10_sound. Qed.
+Print Assumptions C19_digits_of_powers_of_ten.
